@@ -144,3 +144,40 @@ extern "C" void h_local(void) {
   for (int c = 0; c < NCOMP; ++c) verif_assert(fbits(d_a[c]) == fbits(d_b[c]), "decoded value of a point does not depend on the other points");
   verif_reach();
 }
+
+// C04.params: automatic quantization parameters computed from the data (2 points x NCOMP components, all float bit patterns)
+#include <math.h>
+extern "C" void h_params(void) {
+  GeometryAttribute gf;
+  gf.Init(GeometryAttribute::POSITION, nullptr, NCOMP, DT_FLOAT32, false, 4 * NCOMP, 0);
+  PointAttribute src(gf); src.SetIdentityMapping(); src.Reset(2);
+  float a[NCOMP], b[NCOMP];
+  bool finite = true;
+  for (int c = 0; c < NCOMP; ++c) {
+    a[c] = nondet_float(); b[c] = nondet_float();
+    finite = finite && !isnan(a[c]) && !isinf(a[c]) && !isnan(b[c]) && !isinf(b[c]);
+  }
+  src.SetAttributeValue(AttributeValueIndex(0), a);
+  src.SetAttributeValue(AttributeValueIndex(1), b);
+  int q = nondet_i32(); verif_assume(q >= 1 && q <= 30);
+  AttributeQuantizationTransform t;
+  const bool ok = t.ComputeParameters(src, q);
+  verif_assert(ok == finite, "ComputeParameters succeeds exactly for finite data");
+  if (ok) {
+    bool any_pos = false, matches = false, covers = true;
+    for (int c = 0; c < NCOMP; ++c) {
+      float mn = a[c], mx = a[c];          // same tie-breaking as the code (matters for -0.0 / +0.0 under the UF abstraction)
+      if (mn > b[c]) mn = b[c];
+      if (mx < b[c]) mx = b[c];
+      verif_assert(t.min_value(c) == mn, "origin is the per-component minimum of the data");
+      const float dif = mx - mn;              // the same subtraction the code performs
+      if (dif > 0.f) any_pos = true;
+      if (dif > 0.f && t.range() == dif) matches = true;
+      if (dif > t.range()) covers = false;
+    }
+    verif_assert(covers, "range covers every per-component extent");
+    verif_assert(any_pos ? matches : (t.range() == 1.f), "range is the largest per-component extent (1.0 only when all values coincide)");
+    verif_assert(t.quantization_bits() == q, "bits stored");
+  }
+  verif_reach();
+}
